@@ -187,7 +187,7 @@ def restore(relpath: str, tree: ast.Module, src_digest: str = "") -> int:
     n = 0
     for q, fn in iter_functions(tree):
         r = ref.get(q)
-        if not r or not isinstance(r, dict):
+        if not r or not isinstance(r, dict) or q.startswith("__"):
             continue
         names = locals_of(fn)
         missing = [v for v in r if v not in names]
